@@ -4,6 +4,7 @@
 //! every comparison is done by TLC against the TLA+ specification.
 mod util;
 mod omap;
+mod search;
 
 fn main() {
     let args: Vec<String> = std::env::args().collect();
@@ -14,6 +15,7 @@ fn main() {
     let rest = &args[2..];
     let rc = match args[1].as_str() {
         "omap" => omap::main(rest),
+        "search" => search::main(rest),
         other => {
             eprintln!("unknown subcommand {}", other);
             2
